@@ -185,6 +185,20 @@ Theorem C33_recycled_at_most_once : forall k pinned evs tr,
 Proof. exact recycled_at_most_once. Qed.
 Print Assumptions C33_recycled_at_most_once.
 
+(** the commands a pipe builds itself on the cached MGET / JSON.MGET path (one PTTL per missing key, the rewritten
+    MGET) are commands too: they are recycled only after EXEC delivered its array, never on an error return *)
+Theorem C33_pipe_internal_only_after_exec : forall pinned evs tr,
+  run_life KPipeInternal pinned evs = Some tr -> recycled tr = true ->
+  exists e, evs = [e] /\ outcome_of e = OutReply /\ pinned = false.
+Proof.
+  intros pinned evs tr H Hr. unfold run_life in H. destruct evs as [|e r]; cbn [run_life_aux] in H; [discriminate|].
+  cbn [goes_again] in H. destruct r; [|discriminate].
+  exists e. split; [reflexivity|].
+  destruct (outcome_of e) eqn:Eo; cbn [recycles andb] in H; inversion H; subst; try discriminate.
+  destruct pinned; cbn in H; inversion H; subst; [discriminate|]. split; reflexivity.
+Qed.
+Print Assumptions C33_pipe_internal_only_after_exec.
+
 Example C33_nonvacuous_life :
   exists tr, run_life KSingle false [EvAttempt OutReply] = Some tr /\ recycled tr = true
   /\ exists tr2, run_life KSingle false [EvAttemptAgain OutTransportError; EvAttempt OutAbandoned] = Some tr2 /\ recycled tr2 = false.
